@@ -75,6 +75,54 @@ for it in range(N):
         exp.extend("k%d" % j for j in range(len(kids)))
     if list(order) != exp:
         fails.append(dict(clause="strategy-run", observed=repr(order)[:400], expected=repr(exp)[:400]))
+# ---- nested stacks and Or branches: a nested stack is one algo of the enclosing stack (recursive reference semantics)
+def gen(depth, with_or):
+    """random algo tree: ('spy', tag, ret, flag) | ('stack', [children]) | ('or', [children]); Or combines results with `|`, so trees that
+    contain an Or use boolean returns only (algos are documented to return booleans; stacks alone tolerate any truthiness)"""
+    r = rnd.random()
+    if depth >= 2 or r < 0.55:
+        return ("spy", None, rnd.choice([True, False] if with_or else RETS), rnd.choice([None, None, True, False]))
+    return ("stack" if (r < 0.85 or not with_or) else "or", [gen(depth + 1, with_or) for _ in range(rnd.randint(0, 4))])
+def build_tree(node, log, counter):
+    if node[0] == "spy":
+        tag = counter[0]; counter[0] += 1
+        a = Spy(log, tag, node[2])
+        if node[3] is not None:
+            a = run_always(a); a.run_always = node[3]
+        return a, ("spy", tag, node[2], node[3])
+    kids = [build_tree(k, log, counter) for k in node[1]]
+    objs = [k[0] for k in kids]
+    return (AlgoStack(*objs) if node[0] == "stack" else Or(objs)), (node[0], [k[1] for k in kids])
+def ref_run(node, log):
+    """documented semantics; returns truthiness"""
+    if node[0] == "spy":
+        log.append(node[1]); return bool(node[2])
+    if node[0] == "or":
+        res = False
+        for k in node[1]:
+            if ref_run(k, log): res = True
+        return res
+    marked = lambda k: k[0] == "spy" and k[3] is not None      # only decorated algos carry the attribute; a nested stack or Or does not
+    any_ra = any(marked(k) for k in node[1])
+    ok = True
+    for k in node[1]:
+        if ok:
+            if not ref_run(k, log):
+                ok = False
+                if not any_ra: break
+        elif marked(k) and k[3]:
+            ref_run(k, log)
+    return ok
+for it in range(max(30, N // 5)):
+    with_or = rnd.random() < 0.5
+    tree = ("stack", [gen(0, with_or) for _ in range(rnd.randint(1, 5))])
+    log, counter = [], [0]
+    obj, tagged = build_tree(tree, log, counter)
+    got = obj(object()); evals += 1
+    exp_log = []
+    want = ref_run(tagged, exp_log)
+    if bool(got) != want or log != exp_log:
+        fails.append(dict(clause="nested-stacks", tree=repr(tagged)[:300], invoked=log, expected_invoked=exp_log, result=repr(got), expected=want))
 # ---- Require: predicate on a temp entry, default when absent or None
 from bt.algos import Require, RunIfOutOfBounds
 class T0(object):
@@ -83,7 +131,8 @@ for it in range(max(20, N // 10)):
     ifn = rnd.choice([True, False]); state = rnd.choice(["absent", "none", "present"]); ret = rnd.choice(RETS)
     calls = []
     pred = lambda x: (calls.append(x), ret)[1]
-    temp = {} if state == "absent" else {"item": None if state == "none" else ["x"]}
+    present_val = rnd.choice([["x"], [], 0, "", 1.5])     # present entries may be falsy: the predicate still decides
+    temp = {} if state == "absent" else {"item": None if state == "none" else present_val}
     got = Require(pred, "item", if_none=ifn)(T0(temp)); evals += 1
     want = ret if state == "present" else ifn
     if got is not want and got != want or (len(calls) != (1 if state == "present" else 0)): fails.append(dict(clause="Require", state=state, if_none=ifn, ret=repr(ret), got=repr(got), calls=len(calls)))
@@ -108,5 +157,5 @@ for it in range(max(20, N // 10)):
     s.temp.pop("weights"); evals += 1
     if RunIfOutOfBounds(tol)(s) is not True: fails.append(dict(clause="RunIfOutOfBounds/no-weights-is-True"))
 print("JSON:" + json.dumps(dict(evaluations=evals, distinct=len(distinct), failures=fails[:5], samples=samples,
-      rule="random stacks (0-7 spy algos, returns drawn from True/False/0/1/None/''/'x', run_always unset/True/False), Or branch lists, Strategy.run with 0-3 child strategies and 1-3 runs; Require over absent/None/present entries; RunIfOutOfBounds on real trees against the recomputed relative deviations; distinct = distinct (truthiness pattern, flag pattern) pairs",
+      rule="random stacks (0-7 spy algos, returns drawn from True/False/0/1/None/''/'x', run_always unset/True/False), Or branch lists, nested trees of stacks / Or / decorated algos (depth <= 3) against the recursive reference; Strategy.run with 0-3 child strategies and 1-3 runs; Require over absent/None/present entries; RunIfOutOfBounds on real trees against the recomputed relative deviations; distinct = distinct (truthiness pattern, flag pattern) pairs",
       bound="%d random cases per clause family, stacks up to 7 algos" % N)))
